@@ -324,7 +324,7 @@ PROPS = {
     "C10": {
         "pf": True,
         "n": {"quick": 240, "thorough": 8000},
-        "cone": ["Bytes", "Regex", "Generated", "Channel", "ChanTrace", "ChanTraceLemmas", "Replay", "GeneratedSkel", "OpenSkel", "BytesLemmas", "Network", "PlatformTypes", "Session", "SessionLemmas"],
+        "cone": ["Bytes", "Regex", "Generated", "Channel", "ChanTrace", "ChanTraceLemmas", "Replay", "GeneratedSkel", "OpenSkel", "BytesLemmas", "Network", "PlatformTypes", "Session", "SessionLemmas", "DecideLang", "GeneratedSkel", "AuthSrc"],
         "rx": True,
         "rule": "generic.Driver.Open over a simulated transport that requests in-channel ssh / telnet login, against a scripted login device: "
                 "banners, prompt spellings accepted by the patterns, 0-3 rejections, passphrase prompts, ssh client failure messages, silence; "
